@@ -53,6 +53,13 @@ def tree(max_leaves=6, named_ids=(), allow_scale=True, allow_frac=True):
     return st.recursive(st.one_of(base), extend, max_leaves=max_leaves)
 
 
+def opaque_power():
+    """pow<k>( scale( pow<n/d>(X) ) ): an integer power of a unit that is OPAQUE to the unit algebra (a scaled unit) and whose own dimension has fractional exponents"""
+    return st.builds(lambda x, e1, sf, k: {"k": "pow", "a": {"k": "scale", "a": {"k": "pow", "a": x, "n": e1[0], "d": e1[1]}, "num": sf[0], "den": sf[1], "pi": [0, 1]}, "n": k, "d": 1},
+                     st.one_of(leaf(), prefixed()), st.sampled_from([(1, 2), (1, 3), (3, 2), (2, 3), (1, 4), (-1, 2)]),
+                     st.tuples(st.sampled_from(SCALE_NUMS), st.sampled_from([1, 1, 3, 7, 1000])), st.sampled_from([2, 3, -2, 4, -1, 6]))
+
+
 # ---- model evaluation ------------------------------------------------------------------------------
 
 def evaluate(t, defs=None):
